@@ -45,3 +45,16 @@ Section HashContract.
   Qed.
 End HashContract.
 Print Assumptions FH_equal_keys_hash_equally.
+
+(* ---------- value semantics of the classes whose members refer into their own storage (C19) ----------
+   BlockTable's look-up index holds references into its item container: a member-wise (implicit or defaulted) copy or move would leave the
+   new object's index pointing into the SOURCE (defect F11 was exactly that).  Every copy operation of BlockTable and of the two block
+   classes must therefore be written out; a move operation is written out or not declared at all (the copy is then used), never
+   member-wise. *)
+Definition written_out (s : string) : bool := String.eqb s "user".
+Definition move_safe (s : string) : bool := String.eqb s "user" || String.eqb s "none" || String.eqb s "deleted".
+Theorem FH_copies_are_written_out :
+  forallb (fun c => let '(cc, mc, ca, ma) := snd c in written_out cc && written_out ca && move_safe mc && move_safe ma) gen_special_members = true
+  /\ map fst gen_special_members = ["BlockTable"; "CdnsBlock"; "CdnsBlockRead"].
+Proof. vm_compute. split; reflexivity. Qed.
+Print Assumptions FH_copies_are_written_out.
